@@ -9,3 +9,10 @@ import VibeProof.Props.C20
 #print axioms VibeProof.C20.C20_load_total_consumes_prefix_alloc_bounded
 #print axioms VibeProof.C20.C20_empty_and_bad_magic
 #print axioms VibeProof.C20.C20_zero_column_rows_consume_nothing
+#print axioms VibeProof.C20.C20_split_nonempty
+#print axioms VibeProof.C20.C20_split_second_part_absent
+#print axioms VibeProof.C20.C20_parseType_numeric_prefix_total
+#print axioms VibeProof.C20.C20_parseType_single_prefix_total
+#print axioms VibeProof.C20.C20_type_text_roundtrip
+#print axioms VibeProof.C20.C20_type_text_roundtrip_counterexample
+#print axioms VibeProof.C20.C20_near_miss_texts
